@@ -519,14 +519,18 @@ def run(ctx):
                 if r.ok and r.coverage.get(a, (0, 0))[1] == 0:
                     raise tlc.MachineryError('vacuous: action %s never taken' % a)
         # each deviation flag (library as found) must break the invariant that speaks about it
-        for f, inv in DEV_BREAKS.items():
-            cfgp = os.path.join(tlc.BUILD, 'Keychain_dev.cfg')
-            tlc.write_cfg(cfgp, constants=consts('{"A", "B"}', depth=3, devs={f: True}), invariants=INVS)
-            r = tlc.run('Keychain', cfgp, workers=2, heavy=False)
-            if r.violated != inv:
-                raise tlc.MachineryError('deviation %s does not violate %s (got %s)' % (f, inv, r.violated))
-            ctx.note('as-found model %s: TLC finds %s violated after %d states' % (f, inv, r.distinct))
-        cfgp = os.path.join(tlc.BUILD, 'Keychain_w.cfg')
+        # (-continue makes TLC report every violated invariant of the run)
+        got = set()
+        for fl, depth in ((('DevScope', 'DevDelKey'), 3), (('DevCacheLoc',), 4)):
+            cfgp = os.path.join(tlc.BUILD, 'Keychain_dev_%s.cfg' % ctx.tier)
+            tlc.write_cfg(cfgp, constants=consts('{"A", "B"}', depth=depth, devs={f: True for f in fl}), invariants=INVS)
+            r = tlc.run('Keychain', cfgp, workers=2, heavy=False, extra=['-continue'] if len(fl) > 1 else [])
+            hit = set(i for i in INVS if 'Invariant %s is violated' % i in r.out)
+            for f in fl:
+                if DEV_BREAKS[f] not in hit:
+                    raise tlc.MachineryError('deviation %s does not violate %s (violated: %s)' % (f, DEV_BREAKS[f], sorted(hit)))
+            ctx.note('as-found model with %s: TLC finds violated: %s' % ('+'.join(fl), ', '.join(sorted(hit))))
+        cfgp = os.path.join(tlc.BUILD, 'Keychain_w_%s.cfg' % ctx.tier)
         tlc.write_cfg(cfgp, constants=consts('{"A", "B"}', depth=4), invariants=WITNESSES)
         r = tlc.run('Keychain', cfgp, workers=2, heavy=False, extra=['-continue'])
         for w in WITNESSES:
